@@ -1,20 +1,21 @@
 PROP = {
     "level": "exploration",
-    "technique": "runtime monitor over a real three-node switch/link/channel cluster: wire monitor on every settle/fail the forwarder sends upstream (preimage learned downstream; outgoing HTLC gone from the forwarder's on-disk commitments), conservation/dangling oracle at quiescence, injected delays and cluster restarts; race detector in the thorough tier",
+    "technique": "runtime monitor over a real three-node switch/link/channel cluster: wire monitor on every settle/fail the forwarder sends upstream (preimage learned downstream; outgoing HTLC gone from the forwarder's on-disk commitments), conservation/dangling oracle at quiescence, injected delays, single-link flaps and cluster restarts, hold invoices settled/cancelled at PRNG instants; race detector in the thorough tier",
     "level_text": ("Batches of 5-20 concurrent payments (A->B->C, C->B->A, direct; amounts around dust/min_htlc; valid, unknown hash, "
-                   "underpaid, fee-too-low and CLTV-delta-too-small onions) run through three real Switches with real links, circuit "
-                   "maps and channels; message delays and 0-2 whole-cluster restarts (all in-flight messages lost, every node reloaded "
+                   "underpaid, fee-too-low and CLTV-delta-too-small onions, hold invoices that the receiver settles or cancels later) run through three real Switches with real links, circuit "
+                   "maps and channels; message delays, 0-3 flaps of one channel's links with the switches running (links removed, channel reloaded on both "
+                   "ends, channel_reestablish run for real) and 0-2 whole-cluster restarts (all in-flight messages lost, every node reloaded "
                    "from its DBs, results re-queried by attempt id) are injected. Monitors: (1) every update_fulfill Bob sends upstream "
                    "must follow an update_fulfill with that preimage on the outgoing channel; every update_fail upstream must find the "
                    "outgoing HTLC in none of Bob's on-disk commitments (fresh FetchChannel); at most one resolution kind per incoming "
                    "HTLC and at most one per connection; (2) at quiescence (observable state stable) no HTLC/circuit is left, every "
                    "payment has a terminal result consistent with the receiver's invoice, and all four channel-end balances equal the "
                    "start plus exactly the settled payments and fees; (3) thorough: the same under the Go race detector."),
-    "level_note": ("3-node line topology with the fixture's mock onion iterator; hodl-mask dev flags not used; 'no HTLC left dangling' is "
+    "level_note": ("3-node line topology with the fixture's mock onion iterator; hodl-mask dev flags not used (hold invoices are real hold invoices of the invoice registry); 'no HTLC left dangling' is "
                    "idle-but-dirty detection (never idle => inconclusive); goroutine schedules are the runtime's, not enumerated; held on "
                    "the cases counted in evidence."),
     "design_ref": "DESIGN.md §3 C08",
-    "rule": ("case = (5-20 PRNG payments in 1-3 waves, delay profile, 0-2 cluster restarts at PRNG instants); non-trivial = at least "
+    "rule": ("case = (5-20 PRNG payments in 1-3 waves incl. hold invoices, delay profile, 0-3 link flaps and 0-2 cluster restarts at PRNG instants); non-trivial = at least "
              "one payment settled; distinct = (restarts, number of distinct (direction,kind,outcome) classes, settled count bucket, delay profile)"),
     "race_anchors": ["htlcswitch/link.go", "htlcswitch/switch.go", "htlcswitch/circuit_map.go", "htlcswitch/mailbox.go",
                      "htlcswitch/payment_result.go", "channeldb/forwarding_package.go", "lnwallet/channel.go"],
